@@ -96,7 +96,7 @@ SweepHits(e, keys, clause) ==
              vr == { j \in 1..Len(e.radii) : e.radii[j].rpos }
              tie == { j \in vf : TieAtK(keys, e.finds[j].k, MaxKey(e.finds[j].res)) }
              qin == QueryInData(keys)
-         IN  [x \in {"Find", "FindErr", "Radius", "RadiusErr", "TieAtK", "QueryInData", "NonTrivial", "RadiusAt"} |->
+         IN  [x \in {"Find", "FindErr", "Radius", "RadiusErr", "TieAtK", "QueryInData", "NonTrivial", "RadiusAt", "RadiusInf"} |->
                 CASE x = "Find" -> Count(vf)
                   [] x = "FindErr" -> Len(e.finds) - Count(vf)
                   [] x = "Radius" -> Count(vr)
@@ -104,7 +104,9 @@ SweepHits(e, keys, clause) ==
                   [] x = "TieAtK" -> Count(tie)
                   [] x = "QueryInData" -> IF qin THEN Count(vf) ELSE 0
                   [] x = "NonTrivial" -> IF qin THEN Count(vf) ELSE Count(tie)
-                  [] x = "RadiusAt" -> Count({ j \in vr : e.radii[j].kind = "at" })]
+                  [] x = "RadiusAt" -> Count({ j \in vr : e.radii[j].kind = "at" })
+                  \* r = +infinity and r = f64::MAX are radii > 0: every point must come back
+                  [] x = "RadiusInf" -> Count({ j \in vr : e.radii[j].kind \in {"inf", "max"} })]
 
 (***************************************************************************)
 (* Heap.  The recorded operation sequence is run through the model         *)
@@ -239,7 +241,7 @@ TreeFindDrift(e, real) ==
 (***************************************************************************)
 (* The step: consume one line.                                             *)
 (***************************************************************************)
-HitNames == {"Sweep", "Find", "FindErr", "Radius", "RadiusErr", "RadiusAt", "TieAtK", "QueryInData", "NonTrivial", "BuildFail",
+HitNames == {"Sweep", "Find", "FindErr", "Radius", "RadiusErr", "RadiusAt", "RadiusInf", "EstManyClasses", "TieAtK", "QueryInData", "NonTrivial", "BuildFail",
              "linear", "cover", "man", "euc", "mink", "ham", "lat", "cont",
              "Heap", "HeapDrift", "HeapTlc", "Tree", "TreeDrift", "TreeFindDrift", "TreeFind",
              "LinFind", "LinDrift", "N1cover", "N1linear", "Identcover", "Identlinear",
@@ -301,6 +303,7 @@ EstTags(e, c) ==
       \cup (IF c = "ok" /\ e.k >= 1 /\ e.k <= e.n /\ e.n > 256 THEN {"EstTrainOver256"} ELSE {})
       \cup (IF c = "ok" /\ e.fit = "ok" THEN {"EstApi" \o e.api} ELSE {})
       \cup (IF c = "ok" /\ e.k >= 1 /\ e.k <= e.n /\ e.signedZeroLabels THEN {"EstSignedZeroLabels"} ELSE {})
+      \cup (IF c = "ok" /\ e.k >= 1 /\ e.k <= e.n /\ e.nClasses > 256 THEN {"EstManyClasses"} ELSE {})
       \cup (IF c = "ok" /\ e.viaFields THEN {"EstViaFields"} ELSE {})
       \cup (IF c = "ok" /\ e.defaultMetric THEN {"EstDefaultMetric"} ELSE {})
 
